@@ -82,6 +82,16 @@ def run(ctx):
             reqs.append(dict(reqs[-1], point=b2l(vk.to_string("compressed" if len("%x" % c.curve.p()) > 2 else "hybrid"))))
             reqmeta.append((c, d, vk.to_string()))
             ctx.nontrivial.add((c.name, d))
+    # a curve registered in ecdsa.curves.curves AFTER keys have already been decoded must be found too
+    late = toy.lib_curve(ecdsa, "T41")
+    for d in (1, 5, late.order - 1):
+        sk = SigningKey.from_secret_exponent(d, late, hashfunc=hashlib.sha256)
+        sig0 = sk.sign_deterministic(b"c09", sigencode=util.sigencode_der)
+        for fmt in ("spki", "ssleay", "pkcs8"):
+            for pem in (False, True):
+                out = (sk.get_verifying_key().to_pem() if pem else sk.get_verifying_key().to_der()) if fmt == "spki" else \
+                    (sk.to_pem(format=fmt) if pem else sk.to_der(format=fmt))
+                roundtrip(ctx, late, sk, sk.get_verifying_key(), fmt, pem, out, sig0, ("T41 (registered late)", d, "uncompressed", fmt, pem))
     # (C->S) byte-exactness decided by TLC
     ctx.evaluations += len(events)
     bad, st = core.validate_traces(ctx.workdir, "KeyTrace", TRACE_CFG, events, per_shard_min=150)
